@@ -18,7 +18,7 @@ for S in seeded/*/; do
   fi
   res=""
   for p in $ids; do o=$(./check $p quick 2>&1); rc=$?; res="$res $p=$rc [$(echo "$o" | grep -m1 -o 'violation\[[^]]*\]')]"; done
-  git -C $R reset -q 2>/dev/null; git -C $R checkout -- . 2>/dev/null
+  git -C $R reset -q 2>/dev/null; git -C $R checkout -- . 2>/dev/null; git -C $R clean -fdq 2>/dev/null
   echo "$name$res"
 done
 rm -rf $V $R
